@@ -265,8 +265,9 @@ fn lexi_0_to_x(x: &str, incl: bool) -> Result<String> {
             return Ok(format!("[0-{}][0-9]*", x0 - 1));
         }
 
+        // x has no trailing zeros, so stopping after its first digit gives a strictly smaller number
         let mut parts = vec![format!(
-            "{}{}",
+            "{}({})?",
             x.chars()
                 .next()
                 .ok_or_else(|| anyhow!("String x is unexpectedly empty"))?,
@@ -331,8 +332,9 @@ fn lexi_range(ld: &str, rd: &str, ld_incl: bool, rd_incl: bool) -> Result<String
             }
             let rd_rest = rd[1..].trim_end_matches('0');
             if !rd_rest.is_empty() || rd_incl {
+                // stopping after the first digit of rd is below rd whenever more (non-zero) digits follow
                 parts.push(format!(
-                    "{}{}",
+                    "{}({})?",
                     rd.chars()
                         .next()
                         .ok_or_else(|| anyhow!("rd is unexpectedly empty"))?,
